@@ -452,8 +452,8 @@ impl LLFree<'_> {
                 }
             },
             Err(Some(Reservation { row, free, .. })) => {
-                // Sync with global tree
-                if sync {
+                // Sync with global tree (pointless if the reservation is for another tree than the requested frame)
+                if sync && frame.is_none_or(|f| f.as_tree() == row.as_tree()) {
                     let min = (1 << order) - free;
                     if let Some(free) = self.trees.sync(row.as_tree(), min) {
                         if self.locals.put(class, local, row.as_tree(), free) {
